@@ -23,7 +23,7 @@ def wire_prop(pid, theorems, suites, extra=None):
     d.update(extra or {})
     return d
 
-WRITER_FLAG = r"(^| )p( |$)|PANIC|GARBAGE|STICKY|ROUNDTRIP"
+WRITER_FLAG = r"(^| )p( |$)|PANIC|GARBAGE|STICKY|ROUNDTRIP|NONDET"
 
 def writer_stream(suite):
     return {"name": suite, "gen": ["{bin}/writer", "gen", suite, "{seed}", "{tier}", "{stats}"],
